@@ -68,6 +68,19 @@ fn check_bin(case: &BinCase, ctx: &mut Ctx) -> Result<(), Fail> {
         let want = (1.0 + b2) * tp / ((1.0 + b2) * tp + b2 * fneg + fp);
         ctx.bound("f-beta", (f - want).abs(), 16.0 * f64::EPSILON)?;
     }
+    // the f32 instantiation of the same metrics (counts up to 200 are exact in f32; one rounding per division)
+    let (yt32, yp32): (Vec<f32>, Vec<f32>) = (case.y_true.iter().map(|x| *x as f32).collect(), case.y_pred.iter().map(|x| *x as f32).collect());
+    let e32 = f32::EPSILON as f64;
+    let acc32: f32 = no_panic("accuracy-f32", || metrics::accuracy(&yt32, &yp32))?;
+    ctx.bound("accuracy-f32", (acc32 as f64 - eq / n).abs(), 4.0 * e32)?;
+    let p32: f32 = no_panic("precision-f32", || metrics::precision(&yt32, &yp32))?;
+    let r32: f32 = no_panic("recall-f32", || metrics::recall(&yt32, &yp32))?;
+    if tp + fp > 0.0 {
+        ctx.bound("precision-f32", (p32 as f64 - tp / (tp + fp)).abs(), 4.0 * e32)?;
+    }
+    if pos > 0.0 {
+        ctx.bound("recall-f32", (r32 as f64 - tp / pos).abs(), 4.0 * e32)?;
+    }
     Ok(())
 }
 
@@ -140,7 +153,19 @@ pub fn check_auc(case: &AucCase, ctx: &mut Ctx) -> Result<(), Fail> {
             ctx.label_if(d.len() == 1, "constant-scores");
             let pos = case.y_true.iter().filter(|x| **x == 1).count();
             ctx.label_if(pos == 1 || pos + 1 == yt.len(), "single-positive-or-negative");
-            ctx.bound("auc", (got - want).abs(), 1e-12)
+            ctx.bound("auc", (got - want).abs(), 1e-12)?;
+            // f32 instantiation on scores rounded to f32 (the reference is recomputed on the rounded scores, whose
+            // tie pattern may differ); rank sums up to 200*201/2 are exact in f32
+            let s32: Vec<f32> = case.score.iter().map(|x| *x as f32).collect();
+            if s32.iter().all(|x| x.is_finite()) {
+                let yt32: Vec<f32> = case.y_true.iter().map(|x| *x as f32).collect();
+                let got32: f32 = no_panic("auc-f32", || metrics::roc_auc_score(&yt32, &s32))?;
+                let s32_64: Vec<f64> = s32.iter().map(|x| *x as f64).collect();
+                if let Some(want32) = auc_reference(&case.y_true, &s32_64) {
+                    ctx.bound("auc-f32", (got32 as f64 - want32).abs(), 16.0 * f32::EPSILON as f64)?;
+                }
+            }
+            Ok(())
         }
     }
 }
@@ -293,6 +318,29 @@ fn check_cluster(case: &ClusterCase, ctx: &mut Ctx) -> Result<(), Fail> {
     let rb: Vec<f64> = case.b.iter().map(|x| (7 * x - 300) as f64).collect();
     let (h3, c3, v3): (f64, f64, f64) = no_panic("hcv", || (metrics::homogeneity_score(&ra, &rb), metrics::completeness_score(&ra, &rb), metrics::v_measure_score(&ra, &rb)))?;
     ctx.bound(&format!("{}/relabel", tag), (h - h3).abs().max((c - c3).abs()).max((v - v3).abs()), tol)?;
+    // the same scores through the f32 instantiation (the metrics are generic over the element type): finite, in
+    // range, and equal to the definition within a tolerance shaped like the f32 rounding of the entropy sums
+    // divided by the smaller label entropy
+    if ka >= 2 && kb >= 2 {
+        let ga: Vec<f32> = case.a.iter().map(|x| *x as f32).collect();
+        let gb: Vec<f32> = case.b.iter().map(|x| *x as f32).collect();
+        let (h32, c32, v32): (f32, f32, f32) = no_panic("hcv-f32", || (metrics::homogeneity_score(&ga, &gb), metrics::completeness_score(&ga, &gb), metrics::v_measure_score(&ga, &gb)))?;
+        let n = case.a.len() as f64;
+        let count = |v: &Vec<i32>| {
+            let mut m: BTreeMap<i32, f64> = BTreeMap::new();
+            for x in v {
+                *m.entry(*x).or_insert(0.0) += 1.0;
+            }
+            m.values().cloned().collect::<Vec<f64>>()
+        };
+        let hmin = entropy_of(&count(&case.a), n).min(entropy_of(&count(&case.b), n));
+        let tol32 = 8.0 * (f32::EPSILON as f64) * ((ka * kb) as f64 + 4.0) / hmin.min(1.0);
+        for (name, g, w) in [("homogeneity", h32 as f64, hw), ("completeness", c32 as f64, cw), ("v-measure", v32 as f64, vw)] {
+            ensure!(g.is_finite() && g >= -1e-5 && g <= 1.0 + 1e-5, format!("hcv-f32/{}/range", name), "f32 {} = {}", name, g);
+            // V is the harmonic mean of two numbers that each carry tol32 of error; near h = c = 0 it amplifies by at most 2
+            ctx.bound(&format!("hcv-f32/{}", name), (g - w).abs(), if name == "v-measure" { 4.0 * tol32 } else { tol32 })?;
+        }
+    }
     // the struct interface agrees with the free functions
     let t: (f64, f64, f64) = no_panic("hcv", || metrics::ClusterMetrics::hcv_score().get_score(&fa, &fb))?;
     // (two evaluations may differ in the last bits: the entropy sums run over a hash map)
